@@ -213,11 +213,12 @@ class GuidedStrategy(Strategy):
         self.stuck = 0
         self.followed = 0
         self.skipped = 0
+        self.last_ev = {}
         self._open()
 
     def _open(self):
         while self.ptr < len(self.script) and self.script[self.ptr].get('ev') is None \
-                and self.script[self.ptr].get('open') is None:
+                and self.script[self.ptr].get('open') is None and not self.script[self.ptr].get('fire'):
             self.ptr += 1           # silent step without a gate: nothing to steer
         if self.ptr < len(self.script):
             k = self.script[self.ptr].get('open')
@@ -227,15 +228,31 @@ class GuidedStrategy(Strategy):
             self.gates['*'] = True  # behaviour exhausted: let everything finish
 
     def on_emit(self, sched, rec):
+        t = sched.threads.get(_get_ident())
+        if t is not None:
+            self.last_ev[self.role_of(t)] = rec['ev']
         if self.ptr >= len(self.script):
             return
         st = self.script[self.ptr]
-        t = sched.threads.get(_get_ident())
         if st.get('ev') == rec['ev'] and t is not None and self.role_of(t) == st['role']:
             self.ptr += 1
             self.followed += 1
             self.stuck = 0
             self._open()
+
+    def fire_early(self, sched, due):
+        # a step marked 'fire' is a timer expiry of that role's thread (deadline of a wait / of a result): fire it now
+        if self.ptr < len(self.script) and self.script[self.ptr].get('fire'):
+            role = self.script[self.ptr]['role']
+            need = self.script[self.ptr].get('after')       # the timer belongs to the wait that follows this event
+            for t in due:
+                if self.role_of(t) == role and (need is None or self.last_ev.get(role) in need):
+                    self.ptr += 1
+                    self.followed += 1
+                    self.stuck = 0
+                    self._open()
+                    return t
+        return None
 
     def pick(self, sched, runnable, current):
         if self.ptr < len(self.script):
